@@ -204,6 +204,181 @@ theorem failing_candidates_in_front_irrelevant (ids : List B) (ta : Bool) (tr : 
     firstDischarge ids ta tr key (bad ++ ds) = firstDischarge ids ta tr key ds := by
   rw [firstDischarge_append, h]; rfl
 
+/-! ### duplicates, through the whole of `verify` -/
+
+/-- `DupExt l l'`: `l'` is `l` with duplicates inserted — each inserted element already occurs
+EARLIER in `l'` (built left to right: keep the next element of `l`, or repeat one already there).
+Repeating a candidate in FRONT of its first occurrence is not covered, and must not be: the first
+accepted candidate wins, so moving one forward can change which discharge is used. -/
+inductive DupExt {α : Type} : List α → List α → Prop
+  | nil : DupExt [] []
+  | keep (x : α) {l l' : List α} : DupExt l l' → DupExt (l ++ [x]) (l' ++ [x])
+  | dup (x : α) {l l' : List α} : DupExt l l' → x ∈ l' → DupExt l (l' ++ [x])
+
+theorem dupExt_append {α : Type} : ∀ (r : List α) {l l' : List α}, DupExt l l' → DupExt (l ++ r) (l' ++ r)
+  | [], _, _, h => by simpa using h
+  | x :: r, l, l', h => by
+    have := dupExt_append r (DupExt.keep x h)
+    simpa [List.append_assoc] using this
+
+theorem dupExt_refl {α : Type} (l : List α) : DupExt l l := by
+  simpa using dupExt_append l (DupExt.nil (α := α))
+
+theorem dupExt_filter {α : Type} (p : α → Bool) {l l' : List α} (h : DupExt l l') :
+    DupExt (l.filter p) (l'.filter p) := by
+  induction h with
+  | nil => exact .nil
+  | keep x _ ih =>
+    simp only [List.filter_append, List.filter_cons, List.filter_nil]
+    cases p x
+    · simpa using ih
+    · exact .keep x ih
+  | dup x _ hx ih =>
+    simp only [List.filter_append, List.filter_cons, List.filter_nil]
+    cases hp : p x
+    · simpa using ih
+    · exact .dup x ih (List.mem_filter.mpr ⟨hx, hp⟩)
+
+theorem dupExt_nil_iff {α : Type} {l l' : List α} (h : DupExt l l') : l = [] ↔ l' = [] := by
+  induction h with
+  | nil => simp
+  | keep x _ _ => simp
+  | @dup x l l' _ hx ih =>
+    have hne : l' ≠ [] := List.ne_nil_of_mem hx
+    constructor
+    · intro hl; exact absurd (ih.mp hl) hne
+    · intro hl; simp at hl
+
+/-- duplicates inserted after a first occurrence never change what the `dmLoop` finds -/
+theorem dupExt_firstDischarge (ids : List B) (ta : Bool) (tr : Bytes → List B) (key : B) {l l' : List (Mac B)}
+    (h : DupExt l l') : firstDischarge ids ta tr key l = firstDischarge ids ta tr key l' := by
+  induction h with
+  | nil => rfl
+  | keep x _ ih => rw [firstDischarge_append, firstDischarge_append, ih]
+  | dup x _ hx ih => rw [duplicate_discharge_irrelevant ids ta tr key x _ hx]; exact ih
+
+/-- two lookups that `verify` cannot tell apart: defined on the same tickets, and where both are
+defined the `dmLoop` finds the same thing in both candidate lists — whatever the binding ids, trust
+settings and key it is run with -/
+def LookupSim (l1 l2 : B → Option (List (Mac B))) : Prop :=
+  ∀ ticket, (l1 ticket).isSome = (l2 ticket).isSome ∧
+    ∀ a b, l1 ticket = some a → l2 ticket = some b →
+      ∀ ids ta tr key, firstDischarge ids ta tr key a = firstDischarge ids ta tr key b
+
+theorem walkOK_lookupSim (proof : Bool) (l1 l2 : B → Option (List (Mac B))) (h : LookupSim l1 l2) (pids : List B) :
+    ∀ (cs : List (Cav B)) (t : B), walkOK proof l1 pids t cs = walkOK proof l2 pids t cs
+  | [], _ => rfl
+  | c :: cs, t => by
+    have hs : stepOK proof l1 pids t c = stepOK proof l2 pids t c := by
+      unfold stepOK
+      split
+      · rename_i vk ticket _
+        rw [(h ticket).1]
+      · rfl
+    simp only [walkOK, hs]
+    cases macCav t c with
+    | none => rfl
+    | some t' => simp only [walkOK_lookupSim proof l1 l2 h pids cs t']
+
+theorem mapM_congr_map {α β : Type} (F : α → Option β) : ∀ (xs ys : List α), xs.map F = ys.map F → xs.mapM F = ys.mapM F
+  | [], [], _ => rfl
+  | [], _ :: _, h => by simp at h
+  | _ :: _, [], h => by simp at h
+  | x :: xs, y :: ys, h => by
+    simp only [List.map_cons, List.cons.injEq] at h
+    rw [List.mapM_cons, List.mapM_cons, h.1, mapM_congr_map F xs ys h.2]
+
+theorem pendOf_lookupSim (l1 l2 : B → Option (List (Mac B))) (h : LookupSim l1 l2) (ids : List B) (ta : Bool)
+    (tr : Bytes → List B) :
+    ∀ (cs : List (Cav B)) (t : B),
+      (pendOf l1 t cs).map (fun p => firstDischarge ids ta tr p.key p.ds) =
+      (pendOf l2 t cs).map (fun p => firstDischarge ids ta tr p.key p.ds)
+  | [], _ => rfl
+  | c :: cs, t => by
+    have hs : (pendOfStep l1 t c).map (fun p => firstDischarge ids ta tr p.key p.ds) =
+        (pendOfStep l2 t c).map (fun p => firstDischarge ids ta tr p.key p.ds) := by
+      unfold pendOfStep
+      split
+      · rename_i vk ticket _
+        obtain ⟨h1, h2⟩ := h ticket
+        cases ha : l1 ticket with
+        | none =>
+          have : l2 ticket = none := by
+            rw [ha] at h1
+            cases hb : l2 ticket with
+            | none => rfl
+            | some b => rw [hb] at h1; simp at h1
+          simp [this]
+        | some a =>
+          cases hb : l2 ticket with
+          | none => rw [ha, hb] at h1; simp at h1
+          | some b =>
+            cases unsealKey t vk with
+            | none => simp
+            | some dk => simp [h2 a b ha hb ids ta tr dk]
+      · rfl
+    simp only [pendOf, List.map_append, hs]
+    cases macCav t c with
+    | none => rfl
+    | some t' => simp only [pendOf_lookupSim l1 l2 h ids ta tr cs t']
+
+/-- the candidate lists `verify` builds from two discharge lists related by `DupExt` are
+indistinguishable -/
+theorem byTicket_dupExt {dms dms' : List (Mac B)} (h : DupExt dms dms') : LookupSim (byTicket dms) (byTicket dms') := by
+  intro ticket
+  have hf := dupExt_filter (fun d : Mac B => kidEq d.nonce.kid ticket) h
+  have hn := dupExt_nil_iff hf
+  have he : (dms.filter fun d => kidEq d.nonce.kid ticket).isEmpty = (dms'.filter fun d => kidEq d.nonce.kid ticket).isEmpty := by
+    cases h1 : (dms.filter fun d => kidEq d.nonce.kid ticket) with
+    | nil => rw [hn.mp h1]
+    | cons x xs =>
+      cases h2 : (dms'.filter fun d => kidEq d.nonce.kid ticket) with
+      | nil => rw [hn.mpr h2] at h1; cases h1
+      | cons y ys => rfl
+  constructor
+  · simp only [byTicket]
+    rw [he]
+    cases (dms'.filter fun d => kidEq d.nonce.kid ticket).isEmpty <;> rfl
+  · intro a b ha hb ids ta tr key
+    simp only [byTicket] at ha hb
+    split at ha
+    · cases ha
+    · split at hb
+      · cases hb
+      · simp only [Option.some.injEq] at ha hb
+        subst ha; subst hb
+        exact dupExt_firstDischarge ids ta tr key hf
+
+/-- **duplicate discharges are irrelevant to `verify` as a whole**: presenting some discharges again —
+any number of copies, anywhere AFTER the first occurrence of the same discharge, for any tickets —
+changes neither whether the token is accepted nor the caveats returned -/
+theorem duplicate_discharges_irrelevant_verify (k : B) (m : Mac B) (dms dms' : List (Mac B)) (h : DupExt dms dms')
+    (tr : Bytes → List B) (cs : List (Cav B)) :
+    verify k m dms tr = .ok cs ↔ verify k m dms' tr = .ok cs := by
+  have hl := byTicket_dupExt h
+  rw [verify_char, verify_char, walkOK_lookupSim _ _ _ hl]
+  have := fun ids => mapM_congr_map _ _ _ (pendOf_lookupSim _ _ hl ids true tr m.cavs (macNonce k m.nonce))
+  simp only [this]
+
+/-- in particular: the whole header presented twice, or one discharge appended again -/
+theorem repeated_discharges_irrelevant_verify (k : B) (m : Mac B) (dms : List (Mac B)) (tr : Bytes → List B)
+    (cs : List (Cav B)) :
+    (verify k m (dms ++ dms) tr = .ok cs ↔ verify k m dms tr = .ok cs) ∧
+    (∀ d ∈ dms, verify k m (dms ++ [d]) tr = .ok cs ↔ verify k m dms tr = .ok cs) := by
+  have gen : ∀ (extra l' : List (Mac B)), DupExt dms l' → (∀ x ∈ extra, x ∈ l') → DupExt dms (l' ++ extra) := by
+    intro extra
+    induction extra with
+    | nil => intro l' h _; simpa using h
+    | cons x e ih =>
+      intro l' h hx
+      have h1 := DupExt.dup x h (hx x List.mem_cons_self)
+      have := ih (l' ++ [x]) h1 (fun y hy => List.mem_append_left _ (hx y (List.mem_cons_of_mem _ hy)))
+      simpa [List.append_assoc] using this
+  have happ : ∀ extra : List (Mac B), (∀ x ∈ extra, x ∈ dms) → DupExt dms (dms ++ extra) :=
+    fun extra hx => gen extra dms (dupExt_refl dms) hx
+  exact ⟨(duplicate_discharges_irrelevant_verify k m dms _ (happ dms fun _ h => h) tr cs).symm,
+    fun d hd => (duplicate_discharges_irrelevant_verify k m dms _ (happ [d] (by simpa using hd)) tr cs).symm⟩
+
 /-- [lawful] the third party recovers from a ticket exactly the conditions its author attached, and
 the discharge it prepares is rooted at the secret the caveat embeds, keyed by the ticket — for a
 third-party key that is an AEAD key, an AEAD nonce, and a ticket body within the codec's domain
@@ -262,6 +437,7 @@ example := extra_discharges_irrelevant (atom 0) e1 [ed] [edOther] (fun _ => []) 
 example : verify (atom 0) e1 ([ed] ++ [edOther]) (fun _ => []) = .ok [.isUser 7, .confineUser 5] := by rfl
 example := (first_accepted_discharge_decides [] true (fun _ => []) (atom 11) [edWrongKey, ed] [.confineUser 5]).mp (by rfl)
 example := duplicate_discharge_irrelevant [] true (fun _ => []) (atom 11) ed [edWrongKey, ed] (by simp)
+example := (repeated_discharges_irrelevant_verify (atom 0) e1 [edWrongKey, ed] (fun _ => []) [.isUser 7, .confineUser 5]).2 ed (by simp)
 example : firstDischarge [] true (fun _ => []) (atom 11) ([edWrongKey, ed] ++ [ed]) = some [.confineUser 5] := by rfl
 example := failing_candidates_in_front_irrelevant [] true (fun _ => []) (atom 11) [edWrongKey, edNested] [ed] (by rfl)
 example := ticket_roundtrip (atom 5) [9] [Cav.isUser 3] (atom 11) (atom 12) (atom 13) (atom 14) true trivial trivial trivial
@@ -269,6 +445,14 @@ example : dischargeTicket (atom 6) [9] etk (atom 14) true = .error .cannotOpen :
   (bad_ticket_rejected (atom 6) [9] etk (atom 14) true).1 (by rfl)
 
 end examples
+
+/-- non-vacuity of `duplicate_discharges_irrelevant_verify`: `[a, b]` against `[a, a, b, a, b]` -/
+example : DupExt [1, 2] [1, 1, 2, 1, 2] := by
+  have h0 : DupExt ([] ++ [1]) ([] ++ [1]) := .keep 1 .nil
+  have h1 : DupExt [1] ([1] ++ [1]) := .dup 1 h0 (by simp)
+  have h2 : DupExt ([1] ++ [2]) ([1, 1] ++ [2]) := .keep 2 h1
+  have h3 : DupExt [1, 2] ([1, 1, 2] ++ [1]) := .dup 1 h2 (by simp)
+  exact .dup 2 h3 (by simp)
 
 end Macaroon.Props.C04
 
@@ -286,3 +470,14 @@ end Macaroon.Props.C04
 #print axioms Macaroon.Props.C04.failing_candidates_in_front_irrelevant
 #print axioms Macaroon.Props.C04.ticket_roundtrip
 #print axioms Macaroon.Props.C04.bad_ticket_rejected
+#print axioms Macaroon.Props.C04.dupExt_append
+#print axioms Macaroon.Props.C04.dupExt_refl
+#print axioms Macaroon.Props.C04.dupExt_filter
+#print axioms Macaroon.Props.C04.dupExt_nil_iff
+#print axioms Macaroon.Props.C04.dupExt_firstDischarge
+#print axioms Macaroon.Props.C04.walkOK_lookupSim
+#print axioms Macaroon.Props.C04.mapM_congr_map
+#print axioms Macaroon.Props.C04.pendOf_lookupSim
+#print axioms Macaroon.Props.C04.byTicket_dupExt
+#print axioms Macaroon.Props.C04.duplicate_discharges_irrelevant_verify
+#print axioms Macaroon.Props.C04.repeated_discharges_irrelevant_verify
